@@ -44,6 +44,7 @@ def generate(prop, rng):
         "tick_ns": rng.choice([1000, 1_000_000, 1_000_000_000]),
         "reflink": "enotsup",
         "link": rng.choice(["copy", "hardlink", "symlink"]),
+        "read_only": rng.random() < 0.15,  # the store is opened read-only for the query phase
     }
     labels = [f"c{i}" for i in range(nobj)] + ["T"]
     ops = []
@@ -64,6 +65,7 @@ def generate(prop, rng):
             q = {"op": o, "kind": kind, "objs": rng.sample(labels, rng.randint(1, min(3, len(labels))))}
             if kind == "verify_add":
                 q["corrupt"] = rng.random() < 0.7
+                q["objs"] = rng.sample(labels, min(len(labels), rng.choice([1, 2, 3, 3])))
             ops.append(q)
     return {"prop": prop, "cfg": cfg, "contents": [gen.enc(b) for b in pool], "tree": tree, "ops": ops}
 
@@ -144,6 +146,8 @@ def execute(sc, ctx):
         M[o] = {"present": True, "bytes": good[o]}
     warm_any = cfg["add_mode"] == "real" and state is not None
     queried_t = queried_i = False
+    if cfg.get("read_only"):
+        odb.read_only = True
 
     def opath(o):
         return os.path.join(w.p("cache"), o[:2], o[2:])
@@ -343,27 +347,34 @@ def execute(sc, ctx):
                     M[o]["bytes"] = a
             queried_t |= anybad
             queried_i |= not anybad
-        else:  # verify_add
-            o = objs[0]
-            src = w.p("vsrc", f"s{n}")
-            data = good[o]
-            if op.get("corrupt"):
-                data = data + b"~corrupt"
-            w.raw_write(src, data)
-            pre_t = tampered(o)
+        else:  # verify_add: one add() call for several objects, some from corrupt sources
+            if cfg.get("read_only"):
+                continue
+            srcs, pre = [], {}
+            for j, o in enumerate(objs):
+                src = w.p("vsrc", f"s{n}_{j}")
+                data = good[o]
+                # the FIRST listed object comes from a corrupt source (when requested), the rest alternate
+                if op.get("corrupt") and j % 2 == 0:
+                    data = data + b"~corrupt"
+                w.raw_write(src, data)
+                srcs.append(src)
+                pre[o] = tampered(o)
             try:
-                odb.add(src, w.localfs, o, verify=True)
+                odb.add(srcs, w.localfs, list(objs), verify=True)
             except Exception as exc:  # noqa: BLE001
                 ctx.violate("verify-add-raised", type(exc).__name__, repr(exc))
-            a = actual(o)
-            if a is not None and a != good[o]:
-                ctx.violate("verifying-store-retained-mismatch", "corrupt-source" if op.get("corrupt") else "pre-tampered",
-                            f"op{n}: {model.short(o)} holds {len(a)} wrong bytes after add(verify=True)")
-            if a is None and M[o]["present"] and not pre_t:
-                ctx.violate("intact-object-deleted", "verify_add", model.short(o))
-            M[o]["present"] = a is not None
-            if a is not None:
-                M[o]["bytes"] = a
+            for j, o in enumerate(objs):
+                a = actual(o)
+                if a is not None and a != good[o]:
+                    ctx.violate("verifying-store-retained-mismatch",
+                                ("corrupt-source" if op.get("corrupt") else "pre-tampered") + f":position{min(j, 2)}-of-{min(len(objs), 3)}",
+                                f"op{n}: {model.short(o)} holds {len(a)} wrong bytes after add(verify=True) of {len(objs)} objects")
+                if a is None and M[o]["present"] and not pre[o]:
+                    ctx.violate("intact-object-deleted", "verify_add", model.short(o))
+                M[o]["present"] = a is not None
+                if a is not None:
+                    M[o]["bytes"] = a
     if state is not None:
         state.close()
     ctx.nontrivial = bool(queried_t and queried_i and warm_any)
